@@ -78,6 +78,7 @@ class Module:
         self.globals = {}   # name -> (ty, init tokens, align)
         self.funcs = []     # Function
         self.decls = {}     # name -> (retty, [paramtys], vararg)
+        self.aliases = {}   # alias symbol -> aliasee symbol
 
     def resolve(self, t):
         while isinstance(t, NamedTy):
@@ -351,6 +352,10 @@ def parse_module(text):
             else:
                 M.named[m.group(1)] = P(tokenize(m.group(2))).ty()
             i += 1; continue
+        if ln.startswith('@') and re.search(r'\balias\b', ln.split('=', 1)[1][:80]):
+            toks = tokenize(ln)
+            M.aliases[toks[0][1]] = toks[-1][1]
+            i += 1; continue
         if ln.startswith('@'):
             toks = tokenize(ln)
             p = P(toks)
@@ -613,6 +618,37 @@ class FGen:
 
     # ---- emit helpers
     def emit(self, s): self.code.append('  ' + s)
+
+    def const_set(self, name, depth=0):
+        """set of integer constants an SSA value can take if it is a select/phi tree over constants, else None"""
+        if re.fullmatch(r'-?\d+', name):
+            return {int(name)}
+        if depth > 6 or not name.startswith('%'):
+            return None
+        if not hasattr(self, 'defs'):
+            self.defs = {}
+            for b in self.fn.blocks:
+                for ins in b.insts:
+                    m = re.match(r'^(%(?:"[^"]*"|[-a-zA-Z$._0-9]+)) = (select|phi) ', ins)
+                    if m:
+                        self.defs[m.group(1)] = ins
+        ins = self.defs.get(name)
+        if ins is None:
+            return None
+        out = set()
+        if ' = select ' in ins:
+            m = re.match(r'^\S+ = select i1 \S+, i\d+ (\S+), i\d+ (\S+?)$', MD_TAIL.sub('', ins).strip())
+            if not m:
+                return None
+            leaves = [m.group(1), m.group(2)]
+        else:
+            leaves = re.findall(r'\[ (\S+), %', ins)
+        for l in leaves:
+            c = self.const_set(l, depth + 1)
+            if c is None:
+                return None
+            out |= c
+        return out
 
     def ret_default(self):
         if isinstance(self.M.resolve(self.fn.ret), VoidTy):
@@ -899,7 +935,9 @@ class FGen:
                     if p.peek()[1] == 'metadata':
                         p.next(); p.next(); args.append(None)
                     else:
-                        at, av = self.tyop(p); args.append((at, av))
+                        at = p.ty(); skip_param_attrs(p)
+                        rawtok = p.peek()[1]
+                        av = self.operand(p, at); args.append((at, av, rawtok))
                     if p.accept(')'): break
                     p.expect(',')
             normal = unwind = None
@@ -945,6 +983,15 @@ class FGen:
                 ct = self.G.cty(rty)
                 if 'uadd' in bare: E('%s = (%s)(%s + %s) < %s ? (%s)-1 : (%s)(%s + %s);' % (d, ct, a[0], a[1], a[0], ct, ct, a[0], a[1]))
                 else: E('%s = %s > %s ? (%s)(%s - %s) : 0;' % (d, a[0], a[1], ct, a[0], a[1]))
+            elif bare.startswith(('llvm.fshl', 'llvm.fshr')):
+                bits = self.M.resolve(rty).bits
+                if bits not in (8, 16, 32, 64): raise NotImplementedError('funnel shift on i%d' % bits)
+                ct = self.G.cty(rty)
+                sh = '((%s) %% %d)' % (a[2], bits)
+                if 'fshl' in bare:
+                    E('%s = %s == 0 ? %s : (%s)(((%s)%s << %s) | ((%s)%s >> (%d - %s)));' % (d, sh, a[0], ct, ct, a[0], sh, ct, a[1], bits, sh))
+                else:
+                    E('%s = %s == 0 ? %s : (%s)(((%s)%s << (%d - %s)) | ((%s)%s >> %s));' % (d, sh, a[1], ct, ct, a[0], bits, sh, ct, a[1], sh))
             elif bare.startswith('llvm.bswap'):
                 bits = self.M.resolve(rty).bits
                 E('%s = (%s)__builtin_bswap%d(%s);' % (d, self.G.cty(rty), bits, a[0]))
@@ -973,6 +1020,19 @@ class FGen:
                     E('VF_REACH_SITE(%s);' % mm.group(1))
                 self.G.ids.setdefault(self.fn.name, set()).add((bare, int(mm.group(1))))
                 return
+            # LLVM merged several sites into one call with a select/phi of constant ids: split it again
+            raw = args[idx][2] if len(args[idx]) > 2 else None
+            cs = self.const_set(raw) if raw else None
+            if cs:
+                for k in sorted(cs):
+                    if bare == 'vf_check_c':
+                        E('if (%s == %d) __CPROVER_assert(%s, "VF:%d");' % (a[idx], k, a[0], k))
+                    else:
+                        E('if (%s == %d) VF_REACH_SITE(%d);' % (a[idx], k, k))
+                    self.G.ids.setdefault(self.fn.name, set()).add((bare, k))
+                return
+            if bare == 'vf_reach_c':
+                raise NotImplementedError('vf_reach_c with a non-constant id that is not a select/phi of constants')
         if name[0] == '%':
             # indirect call
             fty = '%s (*)(%s)' % (self.G.cty(rty), ', '.join(self.G.cty(x[0]) for x in args) or 'void')
@@ -1075,6 +1135,22 @@ class Translator:
     def _gen(self, name):
         if name in self.fcache:
             return self.fcache[name]
+        if name in self.M.aliases:
+            # function alias (LLVM mergefunc): a forwarding wrapper with the aliasee's signature
+            tgt = self.M.aliases[name]
+            while tgt in self.M.aliases:
+                tgt = self.M.aliases[tgt]
+            if tgt not in self.byname:
+                raise TranslateError('alias %s of a non-function %s' % (name, tgt))
+            f = self.byname[tgt]
+            G = self.G
+            params = ', '.join('%s a%d' % (G.cty(t), i) for i, (t, _) in enumerate(f.params))
+            hdr = '%s %s(%s)' % (G.cty(f.ret), G.cname(name), params or 'void')
+            call = '%s(%s);' % (G.cname(tgt), ', '.join('a%d' % i for i in range(len(f.params))))
+            body = hdr + ' { ' + ('' if isinstance(self.M.resolve(f.ret), VoidTy) else 'return ') + call + ' }'
+            r = (hdr + ';', body, {tgt}, {}, set())
+            self.fcache[name] = r
+            return r
         fn = self.byname[name]
         fn.parse()
         refs = set()
@@ -1112,7 +1188,7 @@ class Translator:
             if is_panic_entry(s) or is_abort_entry(s) or is_alloc_entry(s):
                 stubs.add(s)
                 continue
-            if s in self.byname:
+            if s in self.byname or s in M.aliases:
                 proto, body, refs, used, addr = self._gen(s)
                 reach_f.append(s)
                 used_all.update(used); addr_all |= addr
@@ -1122,7 +1198,7 @@ class Translator:
                 work.extend(v for k, v in M.globals[s][1] if k in ('name', 'qname') and v[0] == '@')
             elif s in M.decls:
                 externs[s] = M.decls[s]
-        if ('@' + entry) not in self.byname:
+        if ('@' + entry) not in self.byname and ('@' + entry) not in M.aliases:
             raise TranslateError('entry %s not defined in module' % entry)
         out = [PRELUDE]
         # globals (need struct defs possibly) -- build first so struct list is complete
@@ -1158,6 +1234,8 @@ class Translator:
         decl_lines = []
         ext_names = []
         def sig(name):
+            while name in M.aliases:
+                name = M.aliases[name]
             if name in self.byname:
                 f = self.byname[name]
                 return f.ret, [t for t, _ in f.params]
